@@ -89,9 +89,14 @@ theorem qltlv_fx (c : Cfg) (g : Glob) (w : World) (st : St) (img : List Nat) (hc
       | some dd =>
         cases dd with
         | nil =>
-          simp only []
-          rw [sendLarge_nf c w _ img _ _ hc hm hw]
-          simp [setActive_seq, setActive_icon, hic]
+          by_cases he : g.emptyBlock = true
+          · simp only [he, if_true]
+            rw [sendLarge_nf c _ _ img _ _ hc hm (nf_of_sched hw (raw_sched w _))]
+            simp [setActive_seq]
+          · have he' : g.emptyBlock = false := by cases h : g.emptyBlock <;> simp_all
+            simp only [he', Bool.false_eq_true, if_false]
+            rw [sendLarge_nf c w _ img _ _ hc hm hw]
+            simp [setActive_seq, setActive_icon, hic]
         | cons b bs =>
           simp only []
           rw [sendLarge_nf c _ _ img _ _ hc hm (nf_of_sched hw (raw_sched w _))]
